@@ -3,6 +3,7 @@ package p2j
 import (
 	"context"
 	"fmt"
+	"strconv"
 
 	"github.com/cloudwego/dynamicgo/http"
 	"github.com/cloudwego/dynamicgo/internal/json"
@@ -141,7 +142,8 @@ func (self *BinaryConv) unmarshalSingular(ctx context.Context, resp http.Respons
 		if e != nil {
 			return wrapError(meta.ErrRead, "unmarshal Fixed32kind error", e)
 		}
-		*out = json.EncodeInt64(*out, int64(v))
+		// fixed32 is unsigned (ReadFixed32 hands the 32 bits out as int32)
+		*out = json.EncodeInt64(*out, int64(uint32(v)))
 	case proto.SFIX32:
 		v, e := p.ReadSfixed32()
 		if e != nil {
@@ -171,13 +173,15 @@ func (self *BinaryConv) unmarshalSingular(ctx context.Context, resp http.Respons
 		if e != nil {
 			return wrapError(meta.ErrRead, "unmarshal Uint64kind error", e)
 		}
-		*out = json.EncodeInt64(*out, int64(v))
+		// unsigned: values above MaxInt64 must not turn negative
+		*out = strconv.AppendUint(*out, uint64(v), 10)
 	case proto.FIX64:
 		v, e := p.ReadFixed64()
 		if e != nil {
 			return wrapError(meta.ErrRead, "unmarshal Fixed64kind error", e)
 		}
-		*out = json.EncodeInt64(*out, int64(v))
+		// fixed64 is unsigned (ReadFixed64 hands the 64 bits out as int64)
+		*out = strconv.AppendUint(*out, uint64(v), 10)
 	case proto.SFIX64:
 		v, e := p.ReadSfixed64()
 		if e != nil {
